@@ -124,7 +124,7 @@ Fixpoint md_loop_max (lex : text -> list tok) (ilt : bool) (src : text) (bs : li
       let tb' := Nat.max tb rs in
       let tc := char_index bs tb' in
       let cu := md_cu_top cu lastend in
-      if md_is_leaf ev && (tc <? cu) then md_loop_max lex ilt src bs rest tb' cu lastend stack
+      if md_is_leaf ev && ((rs <? tb) || (tc <? cu)) then md_loop_max lex ilt src bs rest tb' cu lastend stack
       else
         do '(out, stack) <- md_event_step lex ilt src bs rs stack tc ev;
         do r <- md_loop_max lex ilt src bs rest tb' cu (md_last_end out lastend) stack;
@@ -144,7 +144,7 @@ Proof.
   pose proof (Forall_inv Hbs) as Hrs. pose proof (Forall_inv_tail Hbs) as Hbs'. cbn [snd] in Hrs.
   cbn [md_loop md_loop_max]. destruct (md_advance_ok bs tb tc rs Hb Hrs) as [[tb' tc'] E]. rewrite E. cbn [bind].
   destruct (md_advance_spec _ _ _ _ _ _ Hc Hb E) as (H1 & H2 & H3). subst tb'. rewrite H2.
-  destruct (md_is_leaf ev && (char_index bs (Nat.max tb rs) <? md_cu_top cu lastend)).
+  destruct (md_is_leaf ev && ((rs <? tb) || (char_index bs (Nat.max tb rs) <? md_cu_top cu lastend))).
   - apply IH; [reflexivity|assumption|assumption].
   - destruct (md_event_step lex ilt src bs rs stack (char_index bs (Nat.max tb rs)) ev) as [[out st]|]; cbn [bind]; [|reflexivity].
     rewrite (IH (Nat.max tb rs) (char_index bs (Nat.max tb rs)) _ _ st eq_refl H3 Hbs'). reflexivity.
@@ -163,6 +163,7 @@ Proof.
   cbn [md_loop md_loop_abs]. destruct (md_advance_ok bs tb tc rs Hb Hrs) as [[tb' tc'] E]. rewrite E. cbn [bind].
   destruct (md_advance_spec _ _ _ _ _ _ Hc Hb E) as (H1 & H2 & H3).
   subst tb'. replace (Nat.max tb rs) with rs in * by lia. rewrite H2.
+  destruct (Nat.ltb_spec rs tb) as [Hlt|_]; [lia|]. cbn [orb].
   destruct (md_is_leaf ev && (char_index bs rs <? md_cu_top cu lastend)).
   - apply IH; [reflexivity|assumption|assumption|assumption].
   - destruct (md_event_step lex ilt src bs rs stack (char_index bs rs) ev) as [[out st]|]; cbn [bind]; [|reflexivity].
@@ -338,7 +339,7 @@ Theorem md_guard_covered lex ilt src bs : forall evs tb cu lastend stack toks,
 Proof.
   induction evs as [|[ev rs] rest IH]; intros tb cu lastend stack toks H; cbn [md_loop_max] in H.
   - inversion H. constructor.
-  - destruct (md_is_leaf ev && (char_index bs (Nat.max tb rs) <? md_cu_top cu lastend)) eqn:G.
+  - destruct (md_is_leaf ev && ((rs <? tb) || (char_index bs (Nat.max tb rs) <? md_cu_top cu lastend))) eqn:G.
     + specialize (IH _ _ _ _ _ H). eapply Forall_impl; [|exact IH]. cbn beta. intros t [Ht|Ht]; [now left|right].
       unfold md_cu_top in *. destruct lastend; lia.
     + destruct (md_event_step lex ilt src bs rs stack (char_index bs (Nat.max tb rs)) ev) as [[out st]|] eqn:E; cbn [bind] in H; [|discriminate].
@@ -346,19 +347,19 @@ Proof.
       inversion H; subst toks. apply Forall_app. split.
       * destruct (md_event_step_from _ _ _ _ _ _ _ _ _ _ E) as [Hleaf Hnl].
         destruct (md_is_leaf ev) eqn:L.
-        -- cbn [andb] in G. apply Nat.ltb_ge in G. eapply Forall_impl; [|exact (Hleaf eq_refl)]. cbn beta. intros t Ht. right. lia.
+        -- cbn [andb] in G. apply orb_false_iff in G as [_ G]. apply Nat.ltb_ge in G. eapply Forall_impl; [|exact (Hleaf eq_refl)]. cbn beta. intros t Ht. right. lia.
         -- eapply Forall_impl; [|exact (Hnl eq_refl)]. intros t Ht. now left.
       * specialize (IH _ _ _ _ _ R). eapply Forall_impl; [|exact IH]. cbn beta. intros t [Ht|Ht]; [now left|right].
         pose proof (md_cu_top_mono cu lastend out). lia.
 Qed.
 
-(* FC02c (found independently by C02 and by C04's contract monitor in phase 4; interaction of a37d1cc and 8b26ba4): totality of the Markdown loop — "no panic when every
-   range lies on char boundaries, Text ranges ordered" — is REFUTED.  pulldown-cmark replays the events behind `[[a|]]`;
-   the guard skips a replayed event only when the cursor is before covered_until.  An empty `$$$$` moves the cursor
-   (its range start) but pushes no token, so the replayed Text("river stone ") is handled at the cursor of `$$$$` and
-   `source[tc .. tc + chunk_len]` runs past the end of the file.  Witness: the event stream of `[[a|]]river stone $$$$`. *)
-Definition fc04j_src : text := [91;91;97;124;93;93;114;105;118;101;114;32;115;116;111;110;101;32;36;36;36;36]%N.
-Definition fc04j_evs : list (md_event * nat) :=
+(* FC02c (found in phase 4 by C04's contract monitor and independently by C02; interaction of a37d1cc and 8b26ba4; FIXED by
+   b736ef8: a leaf event whose range starts behind the cursor is skipped).  pulldown-cmark replays the events behind
+   `[[a|]]`; an empty `$$$$` moves the cursor but pushes no token, so before the fix the replayed Text("river stone ") passed
+   the covered_until guard, was handled at the cursor of `$$$$` and `source[tc .. tc + chunk_len]` ran past the end of
+   the file.  The event stream of `[[a|]]river stone $$$$`: *)
+Definition fc02c_src : text := [91;91;97;124;93;93;114;105;118;101;114;32;115;116;111;110;101;32;36;36;36;36]%N.
+Definition fc02c_evs : list (md_event * nat) :=
   [(EStart TParagraph, 0); (EStart TLink, 0); (EText 1 5, 4); (EText 1 6, 5); (EText 12 18, 6); (ECodeLike 0, 18);
    (EEndOther, 0); (EText 12 18, 6); (ECodeLike 0, 18); (EEndBreaking, 0)].
 Definition md_text_ranges_ok (bs : list N) (evs : list (md_event * nat)) : Prop :=
@@ -367,19 +368,59 @@ Definition md_text_ranges_ok (bs : list N) (evs : list (md_event * nat)) : Prop 
                    | _ => True
                    end) evs.
 
-Theorem md_loop_total_refuted :
-  exists (lex : text -> list tok) ilt src evs,
-    Forall valid_char src /\
-    Forall (fun e => is_boundary (encode src) (snd e) = true) evs /\
-    md_text_ranges_ok (encode src) evs /\
-    md_loop lex ilt src (encode src) evs 0 0 0 None [] = Panic PIndex.
+Lemma md_event_step_nontext_ok lex ilt src bs rs stack tc ev :
+  (forall n re, ev <> EText n re) -> exists r, md_event_step lex ilt src bs rs stack tc ev = Ok r.
 Proof.
-  exists (fun c => [mktok (mkspan 0 (length c)) 5%N]), false, fc04j_src, fc04j_evs.
-  split; [repeat constructor; unfold valid_char; lia|].
-  split; [repeat constructor|].
-  split; [unfold md_text_ranges_ok, fc04j_evs; repeat constructor; cbn; lia|].
-  vm_compute. reflexivity.
+  intros H. destruct ev; cbn [md_event_step]; try (eexists; reflexivity).
+  - destruct t; eexists; reflexivity.
+  - destruct (n =? 0); eexists; reflexivity.
+  - exfalso. eapply H. reflexivity.
 Qed.
+
+(* C04_md_loop_total (the former C04_md_loop_total_refuted, now positive): when every range starts on a char boundary
+   and every Text range is ordered and ends on a char boundary — pulldown-cmark's contract, monitored — the whole loop of
+   Markdown::parse never panics, for ANY lexer, from any consistent cursor state.  A Text event that is not skipped does
+   not start behind the cursor (b736ef8), so it is handled at the true offset of its own range start and the clamp of
+   548c418 keeps its chunk inside the source (md_text_clamped). *)
+Theorem md_loop_total lex ilt (src : text) : Forall valid_char src ->
+  forall evs tb tc cu lastend stack,
+  tc = char_index (encode src) tb -> is_boundary (encode src) tb = true ->
+  Forall (fun e => is_boundary (encode src) (snd e) = true) evs ->
+  md_text_ranges_ok (encode src) evs ->
+  exists toks, md_loop lex ilt src (encode src) evs tb tc cu lastend stack = Ok toks.
+Proof.
+  intros Hv. induction evs as [|[ev rs] rest IH]; intros tb tc cu lastend stack Hc Hb Hbs Hr; [eexists; reflexivity|].
+  pose proof (Forall_inv Hbs) as Hrs. pose proof (Forall_inv_tail Hbs) as Hbs'. cbn [snd] in Hrs.
+  pose proof (Forall_inv Hr) as Hr0. pose proof (Forall_inv_tail Hr) as Hr'. cbn [fst snd] in Hr0.
+  cbn [md_loop]. destruct (md_advance_ok (encode src) tb tc rs Hb Hrs) as [[tb' tc'] E]. rewrite E. cbn [bind].
+  destruct (md_advance_spec _ _ _ _ _ _ Hc Hb E) as (H1 & H2 & H3).
+  destruct (md_is_leaf ev && ((rs <? tb) || (tc' <? md_cu_top cu lastend))) eqn:G.
+  - apply IH; assumption.
+  - assert (Hstep : exists out st, md_event_step lex ilt src (encode src) rs stack tc' ev = Ok (out, st)).
+    { destruct ev as [t| | | | |n|n re|n|];
+        try (match goal with |- exists out st, md_event_step _ _ _ _ _ _ _ ?e = _ =>
+               assert (Hnt : forall n0 re0, e <> EText n0 re0) by (intros; discriminate);
+               destruct (md_event_step_nontext_ok lex ilt src (encode src) rs stack tc' e Hnt) as [[o s'] Ho];
+               exists o, s'; exact Ho end).
+      cbn [md_is_leaf andb] in G. apply orb_false_iff in G as [G _]. apply Nat.ltb_ge in G.
+      destruct Hr0 as [Hle Hre].
+      destruct (md_text_clamped lex ilt src rs re stack n Hv Hle Hrs Hre) as (cl & out & Hs & _).
+      cbv zeta in Hs. replace tc' with (char_index (encode src) rs); [eauto|].
+      subst tb' tc'. f_equal. lia. }
+    destruct Hstep as (out & st & Hs). rewrite Hs. cbn [bind].
+    destruct (IH tb' tc' (md_cu_top cu lastend) (md_last_end out lastend) st H2 H3 Hbs' Hr') as [r Hrr]. rewrite Hrr. cbn [bind].
+    eexists; reflexivity.
+Qed.
+
+(* History (FC02c): the NEW loop on the old failing stream — both replayed events are skipped, nothing panics —, and what
+   the code before b736ef8 did with the replayed Text: handled at the cursor of `$$$$` (char 18), it slices source[18..30)
+   of a 22-char file *)
+Example fc02c_replayed_event_skipped :
+  let lex := fun c : text => [mktok (mkspan 0 (length c)) 5%N] in
+  md_loop lex false fc02c_src (encode fc02c_src) fc02c_evs 0 0 0 None []
+  = Ok [mktok (mkspan 4 5) 5%N; mktok (mkspan 5 6) 5%N; mktok (mkspan 6 18) 5%N; mktok (mkspan 18 18) K_PARBREAK] /\
+  md_event_step lex false fc02c_src (encode fc02c_src) 6 [TParagraph] 18 (EText 12 18) = Panic PIndex.
+Proof. vm_compute. split; reflexivity. Qed.
 
 (* ====================================================================================== *)
 (** * C'. Mask: push_allowed / merge_whitespace_sep keep the allowed spans sorted, disjoint, in bounds *)
